@@ -437,6 +437,12 @@ func (w *World) trSpecCall(e *SExpr, env *SpecEnv) *Val {
 		a := w.trSpec(args[0], env)
 		s, gt := w.resolveSpecType("geometry", "Rect")
 		return tv(mk("unbox_"+mangle(s.String()), s, a.T), gt)
+	case "f64at":
+		// f64at(d, o): the float64 whose little-endian bits are the 8 bytes of d at offset o (A-BINARY)
+		a := w.trSpec(args[0], env)
+		o := w.trSpec(args[1], env)
+		le := mk("le64", SInt, tField(a.T, "arr"), mk("+", SInt, tField(a.T, "off"), o.T))
+		return tv(mk("f64frombits", SReal, le), types.Typ[types.Float64])
 	case "fadd", "fsub", "fmul", "fdiv":
 		a := w.trSpec(args[0], env)
 		b := w.trSpec(args[1], env)
